@@ -629,7 +629,9 @@ WEEK = lambda rng, vals: [[rng.choice(vals) for _ in range(24)] for _ in range(3
 
 
 def gen_material_dict(rng, i):
-    return {'type': 'Material', 'name': 'mat%d' % i, 'thermalcond': dec(rng, 0.03, 3, 3) or 0.5,
+    # layers may share a material NAME while differing in properties (e.g. two grades of "Concrete"):
+    # names identify nothing, every layer keeps its own conductivity and heat capacity
+    return {'type': 'Material', 'name': rng.choice(['mat%d' % i, 'Concrete', 'mat0']), 'thermalcond': dec(rng, 0.03, 3, 3) or 0.5,
             'volheat': float(rng.randint(10 ** 4, 3 * 10 ** 6))}
 
 
